@@ -1,6 +1,7 @@
 import HL.Driver.C01
 import HL.Driver.C03
 import HL.Driver.C07
+import HL.Driver.C06H
 open Lean
 
 /-- Every property's driver module exports `handle : String → Json → Option Json`;
@@ -8,7 +9,8 @@ open Lean
 def handlers : List (String → Json → Option Json) := [
   HL.Driver.C01.handle,
   HL.Driver.C03.handle,
-  HL.Driver.C07.handle
+  HL.Driver.C07.handle,
+  HL.Driver.C06H.handle
 ]
 
 def dispatch (op : String) (j : Json) : Json :=
